@@ -393,6 +393,10 @@ func (r *lcRun) main() {
 				prs[0].HalfClose(0)
 				// the server must close the connection on its own; the client side is closed afterwards
 				hSleep(5 * time.Second)
+				hWaitQuiescent("lc.after-eof")
+				if r.srvConn != nil && !r.srvConn.Closed().IsSet() {
+					simrt.Fail("C20-not-closed-after-eof", "the server read the end of the connection 5 s ago and has still not closed it: handler contexts are not cancelled and close listeners have not fired (%d handler(s) still running)", r.active)
+				}
 				cli.Close()
 			}
 		}
